@@ -685,6 +685,10 @@ class TimeoutHandler(PoolThread):
         ), (None, None))
 
     def on_soft_timeout(self, job):
+        if job.ready():
+            # the result was handled after this scan took its snapshot of
+            # the cache: the worker is idle or already running another job.
+            return
         debug('soft time limit exceeded for %r', job)
         process, _index = self._process_by_pid(job._worker_pid)
         if not process:
